@@ -654,7 +654,26 @@ def check_c06(world):
     else:
         t_ref = t_f
         stats[f'c06_class_{cls}'] += 1
-    if end < t_ref + H:
+    # how often does a node get a frame at all? (skip rules of a chain compose; a node that the fault-free model never
+    # reaches cannot be expected to progress, a thinly served one gets proportionally more time)
+    from . import model
+    msc = dict(sc)
+    msc['nodes'] = {n: dict(s) for n, s in nodes.items()}
+    NF = 120
+    for n, s in msc['nodes'].items():
+        if s.get('src'):
+            s['n_frames'] = NF
+    try:
+        exp_inputs, _ = model.evaluate(msc)
+    except Exception:
+        exp_inputs = {}
+    period = max([s.get('period_ns', 0) for s in nodes.values() if s.get('src')] or [0])
+    allow = {}
+    for n in sync_nodes:
+        cnt = len(exp_inputs.get(n, ()))
+        allow[n] = None if cnt == 0 else H + (NF // cnt) * period
+    sync_nodes = [n for n in sync_nodes if allow[n] is not None]
+    if end < t_ref + max([allow[n] for n in sync_nodes] or [H]):
         stats['c06_inconclusive'] += 1
     else:
         for n in sync_nodes:
@@ -664,17 +683,18 @@ def check_c06(world):
                 continue
             # a node downstream of a permanently dead required node cannot be expected to progress; the generator only
             # lets non-required sinks die for good, so everything else must move
-            got = [t for t in ins.get(n, []) if t_ref < t <= t_ref + H]
+            Hn = allow[n]
+            got = [t for t in ins.get(n, []) if t_ref < t <= t_ref + Hn]
             stats['c06_progress_checks'] += 1
             if not got:
                 last = max([t for t in ins.get(n, []) if t <= t_ref], default=None)
                 out.append(V('C06', 'no_progress',
-                             f'{n}: no new frame within {H / 1e9:.2f}s after the last fault ended at '
+                             f'{n}: no new frame within {Hn / 1e9:.2f}s after the last fault ended at '
                              f'{(t_ref - EPOCH_NS) / 1e9:.3f}s (fault class {cls}; last frame before: '
                              f'{"never" if last is None else f"{(last - EPOCH_NS) / 1e9:.3f}s"}; stop {world.stop_reason})',
                              None, t_ref, fault=cls, shape=sc['shape']))
             else:
-                d = (got[0] - t_ref) * 100 // H
+                d = (got[0] - t_ref) * 100 // Hn
                 stats['c06_heal_pct_of_H_max'] = max(stats['c06_heal_pct_of_H_max'], d)
         # keeps moving until the end: no gap longer than H anywhere after t_ref
         for n in sync_nodes:
@@ -682,9 +702,9 @@ def check_c06(world):
                 continue
             ts = [t for t in ins.get(n, []) if t > t_ref] + [end]
             for a, b in zip(ts, ts[1:]):
-                if b - a > H:
+                if b - a > allow[n]:
                     out.append(V('C06', 'stuck', f'{n}: {((b - a) / 1e9):.2f}s without a new frame after '
-                                 f'{(a - EPOCH_NS) / 1e9:.3f}s (bound {H / 1e9:.2f}s, fault class {cls})', None, a,
+                                 f'{(a - EPOCH_NS) / 1e9:.3f}s (bound {allow[n] / 1e9:.2f}s, fault class {cls})', None, a,
                                  fault=cls, shape=sc['shape']))
                     break
     # ordering guarantee still holds
@@ -711,14 +731,21 @@ def check_c06(world):
             pp = world.live_proc(p)
             if pp is None:
                 continue
-            lo = t_k + 1_000_000_000
-            n_pub = sum(1 for (owner, mid), rec in world.pubs.items() if owner == pp.key and lo < rec['t0'] < t_r)
+            # the dead consumer's pending request mark (set by a request p dequeued after its previous publish, or still
+            # in flight at the kill) allows exactly one more publish; nothing else until the consumer is back
+            ptimes = sorted(rec['t0'] for (owner, mid), rec in world.pubs.items() if owner == pp.key)
+            t_prev = max([t for t in ptimes if t <= t_k], default=0)
+            vkeys = {q.key for q in world.procs.get(victim, []) if q.key != (world.live_proc(victim).key if world.live_proc(victim) else None)}
+            n_deq = sum(1 for e in world.events
+                        if e[0] == 'pullrecv' and e[3] == pp.key and e[4].split('#')[0] == victim and t_prev < e[2] < t_r
+                        and e[5] is not None and e[5] >= -1)
+            n_pub = sum(1 for t in ptimes if t_k < t < t_r)
             stats['c06_required_missing_windows'] += 1
-            if n_pub:
+            if n_pub > n_deq:       # every publish needs a request of the (dead) consumer dequeued since the previous one
                 out.append(V('C06', 'required_missing_publish',
-                             f'{pp.key} published {n_pub} frame(s) between {(lo - EPOCH_NS) / 1e9:.3f}s and '
-                             f'{(t_r - EPOCH_NS) / 1e9:.3f}s although its required output {victim} was dead '
-                             f'(killed at {(t_k - EPOCH_NS) / 1e9:.3f}s)', None, t_k, shape=sc['shape']))
+                             f'{pp.key} published {n_pub} frame(s) between {(t_k - EPOCH_NS) / 1e9:.3f}s and '
+                             f'{(t_r - EPOCH_NS) / 1e9:.3f}s although its required output {victim} was dead and only '
+                             f'{n_deq} of its requests were still dequeued', None, t_k, shape=sc['shape']))
     return out
 
 
@@ -844,6 +871,8 @@ def check_c08(world):
         for nid, (k2, why, depth) in exp.items():
             if nid == x:
                 continue
+            if why not in ended:
+                continue     # its announcer never ended (reported on its own): nothing was announced to this filter
             stats['c08_propagation_checks'] += 1
             bound = t_x + depth * per_hop + 500_000_000
             if nid not in ended:
